@@ -558,7 +558,7 @@ pub const C41: Check = Check {
     id: "C41",
     level: "exploration",
     rule: "metamorphic pairs on fresh caches: world W (several repositories) vs W' = W + a fault placed in one repository \
-           (unreachable, every manifest of that repository absent/garbage/stale, bad objects, missing files, a chain of valid CAs deeper than max-ca-depth, a certificate loop). For every CA not \
+           (unreachable, every manifest of that repository absent/garbage/stale, bad objects, missing files, a chain of valid CAs deeper than max-ca-depth, a certificate loop, or - the repository being served via RRDP - a misbehaving RRDP server: wrong snapshot hash, 304 to an unconditional request, broken XML, wrong session, HTTP 500, truncated snapshot). For every CA not \
            published in that repository and not a descendant of one, the served per-CA payload (attribution by the generator's \
            per-CA origin AS ranges) must be identical in both runs (under unsafe-vrps=reject minus VRPs overlapping the affected \
            CAs' resources), and the faulty run must succeed. distinct = (fault kind, repositories, policy, affected/unaffected CA \
@@ -579,6 +579,7 @@ fn per_ca(o: &Observed) -> BTreeMap<usize, BTreeSet<Vrp>> {
 }
 
 fn run_c41(ctx: &mut Ctx, rep: &mut Report) {
+    let fake = crate::net::https::FakeHttps::start().ok();
     let mut rng = ctx.rng("c41");
     let mut b = match Builder::new() { Ok(b) => b, Err(e) => { rep.inconclusive(e); return } };
     let n = ctx.tier.pick(24usize, 400);
@@ -588,7 +589,11 @@ fn run_c41(ctx: &mut Ctx, rep: &mut Report) {
         let params = GenParams { tals: 1 + rng.usize(2), max_cas: 5 + rng.usize(8), max_depth: 1 + rng.usize(3), max_objects: 2 + rng.usize(4), repos, overlaps: rng.bool(), ..GenParams::default() };
         let w = generate(&mut rng, now_ts(), &params);
         let victim_repo = rng.usize(repos);
-        let kind = rng.usize(7);
+        let kind = rng.usize(8);
+        // kind 7: the victim repository is an RRDP repository whose server misbehaves (both runs use RRDP for it)
+        let mut w = w;
+        if kind == 7 { for c in w.cas.iter_mut() { if c.repo == victim_repo && c.parent.is_some() { c.rrdp = true; } } }
+        let w = w;
         let mut w2 = w.clone();
         let in_repo: Vec<usize> = w.cas.iter().filter(|c| c.repo == victim_repo).map(|c| c.id).collect();
         if in_repo.is_empty() { continue }
@@ -609,7 +614,7 @@ fn run_c41(ctx: &mut Ctx, rep: &mut Report) {
         }
         for c in &in_repo {
             match kind {
-                5 | 6 => {}
+                5 | 6 | 7 => {}
                 0 => w2.cas[*c].unreachable = true,
                 1 => apply_point_fault(&mut w2, *c, PointFault::MftAbsent, &mut rng),
                 2 => apply_point_fault(&mut w2, *c, PointFault::MftStale, &mut rng),
@@ -620,11 +625,35 @@ fn run_c41(ctx: &mut Ctx, rep: &mut Report) {
         let pol = Policy { unsafe_vrps: *rng.pick(&[Filter::Accept, Filter::Reject]), stale: Filter::Reject, max_ca_depth, ..Policy::default() };
         let mut observed = Vec::new();
         let mut ok = true;
+        let rrdp_fault = rng.usize(7);
         for (which, ww) in [(0, &w), (1, &w2)] {
             let mut env = Env::new(&ctx.scratch.join("env"));
             pol.apply(&mut env.config);
             env.config.validation_threads = 1 + rng.usize(4);
-            env.serve(&b.publish(ww));
+            let published = b.publish(ww);
+            env.serve(&published);
+            if kind == 7 {
+                let Some(fake) = fake.as_ref() else { rep.inconclusive("fake https not available"); ok = false; break };
+                fake.clear();
+                fake.configure(&mut env.config);
+                env.config.rrdp_fallback = routinator::config::FallbackPolicy::Never;
+                let mut faults = BTreeMap::new();
+                if which == 1 {
+                    use crate::net::rrdp::Faults;
+                    let f = match rrdp_fault {
+                        0 => Faults { snapshot_wrong_hash: true, ..Default::default() },
+                        1 => Faults { notify_status: Some(304), ..Default::default() },
+                        2 => Faults { notify_broken_xml: true, ..Default::default() },
+                        3 => Faults { snapshot_broken_xml: true, ..Default::default() },
+                        4 => Faults { snapshot_wrong_session: true, ..Default::default() },
+                        5 => Faults { snapshot_status: Some(500), ..Default::default() },
+                        _ => Faults { snapshot_truncated: true, ..Default::default() },
+                    };
+                    faults.insert(victim_repo, f);
+                }
+                let mut servers = crate::world::rrdpserve::RrdpServers::default();
+                servers.publish(ww, &published, fake, &faults);
+            }
             ctx.begin_case(&json!({"case": i, "which": which}));
             let out = run_engine(&env.config, true, &LocalExceptions::empty());
             match out.snapshot { Some(s) => observed.push(observe(&s)), None => { ok = false; if which == 1 { rep.violation("C41/run-fails-on-broken-repository", "the run fails although only one repository is broken", json!({"world": ww})); } else { rep.inconclusive("baseline run failed"); } break } }
@@ -654,7 +683,7 @@ fn run_c41(ctx: &mut Ctx, rep: &mut Report) {
             }
         }
         rep.class(format!("kind{kind}|repos{repos}|{:?}|aff{}|unaff{}", pol.unsafe_vrps, affected.len().min(4), unaffected.min(4)));
-        let kind_s = ["unreachable", "manifests absent", "manifests stale", "all objects bad", "missing file", "CA chain deeper than max-ca-depth", "certificate loop"][kind];
+        let kind_s = ["unreachable", "manifests absent", "manifests stale", "all objects bad", "missing file", "CA chain deeper than max-ca-depth", "certificate loop", "RRDP server misbehaves"][kind];
         if rep.samples.len() < 2 { rep.sample(json!({"fault_kind": kind_s, "victim_repo": victim_repo, "affected_cas": affected, "unaffected_cas": unaffected})); }
     }
 }
